@@ -92,6 +92,10 @@ def run(repo, rep, tier):
         rep.check('inclusion', 'RX_PROTOCOL has two groups, both digit runs', pl.groups == 2 and proto_pattern.count('(\\d') == 2, rxpr, 'RX_PROTOCOL is %r' % proto_pattern, sample={'rule': 'inclusion', 'RX_PROTOCOL': proto_pattern})
     else:
         rep.check('inclusion', 'RX_PROTOCOL is derived from the protocol sub-pattern', False, rxpr, 'RX_PROTOCOL construction not recognised')
+    psrc = [n for n in walk_no_nested(bp) if isinstance(n, ast.Assign) and unparse(n.targets[0]) == 'protocol' and not isinstance(n.value, ast.Tuple)]
+    ok = len(psrc) == 1 and isinstance(psrc[0].value, ast.Call) and unparse(psrc[0].value.func) == 'min' and 'mx.group(1)' in unparse(psrc[0].value) and 'RX_PROTOCOL' in unparse(psrc[0].value) and 'ascii_banner' not in unparse(psrc[0].value)
+    rep.check('inclusion', 'the protocol version is taken from the matched version prefix (group 1) only', ok, psrc[0] if psrc else bp,
+              'protocol extracted from %s: an SSH-x.y look-alike inside the software string or comments can change the reported protocol' % (unparse(psrc[0].value)[:80] if psrc else '?'))
     conv = [n for n in walk_no_nested(bp) if isinstance(n, ast.Assign) and unparse(n.targets[0]) == 'protocol' and isinstance(n.value, ast.Tuple)]
     rep.check('inclusion', 'parse() converts both protocol groups with int()', len(conv) == 1 and unparse(conv[0].value) == '(int(protocol[0]), int(protocol[1]))', conv[0] if conv else bp, 'protocol conversion changed')
 
